@@ -28,7 +28,7 @@ export function* generate({ tier, seed }) {
   let n = 0;
   const emit = (props, decls, order, feature) => ({
     gid: `C17-${n++}`, src: moduleFor(props, decls, order), syntax: 'tsx',
-    spec: { props: props.map((p) => ({ ctors: p.ctors, optional: !!p.optional, src: p.src, origins: p.inhabitants.map((x) => x.atom), atoms: (p.ops || []).filter((o) => o.startsWith('atom:')).map((o) => o.slice(5)) })) }, feature,
+    spec: { props: props.map((p) => ({ ctors: p.ctors, open: !!p.open, optional: !!p.optional, src: p.src, origins: p.inhabitants.map((x) => x.atom), atoms: (p.ops || []).filter((o) => o.startsWith('atom:')).map((o) => o.slice(5)) })) }, feature,
     variants: [{ vid: 'v0', options: { resolveType: true } }],
   });
   // 1. every atom, required and optional
@@ -46,6 +46,27 @@ export function* generate({ tier, seed }) {
       return { src: `${a.src} | ${b.src}`, ctors: [...a.ctors, ...b.ctors.filter((c) => !a.ctors.includes(c))], inhabitants: [...a.inhabitants, ...b.inhabitants], ops: [...a.ops, ...b.ops], optional: rng.bool(0.3) };
     });
     yield emit(props, [], 'before', `union2|${i}`);
+  }
+  // 2a'. intersections with an object type (branding): the members' values are still values (inhabitants decide; the constructor list is left open)
+  {
+    const TAGS = [['{ __tag?: 1 }', []], ['Tagged', [{ text: 'interface Tagged { readonly __brand?: unique symbol }' }]], ['{ meta?: string } & { n?: 1 }', []]];
+    const nI = tier === 'quick' ? 400 : 6000;
+    for (let i = 0; i < nI; i++) {
+      const out = { decls: [] };
+      const a = randomTypeExpr(rng, 1 + rng.int(2), out);
+      const [tag, tdecl] = rng.pick(TAGS);
+      const inhabitants = a.inhabitants.filter((x) => x.js !== 'null');
+      if (!inhabitants.length || a.ctors.includes('ANY')) continue;
+      const src = rng.bool() ? `(${a.src}) & ${tag}` : `${tag} & (${a.src})`;
+      yield emit([{ src, ctors: a.ctors, open: true, inhabitants, ops: ['intersectTag', ...a.ops] }], [...out.decls, ...tdecl], rng.pick(['before', 'after']), `intersectTag|${i}`);
+    }
+  }
+  // 2a''. the module's own type that shares its name with a built-in class or utility type: the module's declaration counts
+  for (const name of ['Error', 'Map', 'Date', 'Promise', 'Set', 'RegExp', 'Record', 'Partial', 'Uppercase', 'Parameters', 'Function', 'Array', 'Readonly', 'NonNullable']) for (const kind of ['aliasUnion', 'interface', 'aliasNumber']) for (const order of ['before', 'after']) {
+    const decl = kind === 'aliasUnion' ? `type ${name} = string | { message: string };` : kind === 'interface' ? `interface ${name} { lat: number }` : `type ${name} = number;`;
+    const ctors = kind === 'aliasUnion' ? ['String', 'Object'] : kind === 'interface' ? ['Object'] : ['Number'];
+    const inhabitants = kind === 'aliasUnion' ? [{ js: '"msg"', atom: 'local:' + name }, { js: '({ message: "m" })', atom: 'local:' + name }] : kind === 'interface' ? [{ js: '({ lat: 1 })', atom: 'local:' + name }] : [{ js: '7', atom: 'local:' + name }];
+    yield emit([{ src: name, ctors, inhabitants, ops: ['localNamedLikeBuiltin'] }], [{ text: decl }], order, `localBuiltinName|${name}|${kind}|${order}`);
   }
   // 2b. Boolean / String order through NonNullable, aliases and null in every position
   for (const [x, y] of [['boolean', 'string'], ['string', 'boolean'], ['true', "'s'"], ["'s'", 'false']]) for (const form of ['NonNullable<null | X | Y>', 'NonNullable<X | null | Y>', 'NonNullable<undefined | null | X | Y>', 'null | X | Y', 'NonNullable<N | X | Y>', 'X | Y | number']) {
@@ -192,7 +213,7 @@ export async function check(group, records) {
       // secondary oracle: constructor set as the statement spells it out
       const norm = (l) => [...new Set(l.map(String))].sort().join(',');
       const nullAlone = sp.ctors.length === 1 && sp.ctors[0] === null && norm(got) === 'ANY';
-      if (!expAny && !nullAlone && norm(got) !== norm(sp.ctors)) {
+      if (!expAny && !sp.open && !nullAlone && norm(got) !== norm(sp.ctors)) {
         const gs = new Set(got.map(String)), es = new Set(sp.ctors.map(String));
         const extra = [...gs].filter((x) => !es.has(x)).sort().join(','), missing = [...es].filter((x) => !gs.has(x)).sort().join(',');
         const cause = (sp.atoms || []).includes('10n') && extra === 'Number' && (missing === '' || missing === 'BigInt') ? '+bigint-literal' : '';
